@@ -143,6 +143,11 @@ impl<'a, Key, Freq> FrequencyCounterBasedMinHeapSamples<'a, Key, Freq>
         filled_in
     }
 
+    #[cfg(cached_verif)]
+    pub(crate) fn verif_snapshot(&self) -> Vec<(KeyId, Weight, FrequencyEstimate)> {
+        self.sample.iter().map(|sampled_key| (sampled_key.id, sampled_key.weight, sampled_key.estimated_frequency)).collect()
+    }
+
     pub(crate) fn size(&self) -> usize {
         self.sample.len()
     }
